@@ -9,7 +9,7 @@ from .. import gen, impl, oracle, progs, ser, stream
 
 ID = "C05"
 LEVEL = "proof"
-PROPS_MODULE = "SymmModel.Props.C05"
+PROPS_MODULE = "SymmModel.Props.C05All"
 THEOREMS = [
     "SymmModel.C05.calcFuseGroupInfo_perm",
     "SymmModel.C05.fuseA_eq_fuseCore",
@@ -26,10 +26,23 @@ THEOREMS = [
     "SymmModel.C05.unfuseAll_fuse_blocks_partial",
     "SymmModel.C05.fuseInsert_eq_fuseConcat_partial",
     "SymmModel.C05.fuse_elem_partial",
-    "SymmModel.C05.fuse_elem_onto_partial"
+    "SymmModel.C05.fuse_elem_onto_partial",
+    "SymmModel.C05.fuseA_noexpand",
+    "SymmModel.C05.groupsOkB_filter",
+    "SymmModel.C05.fuse_elem",
+    "SymmModel.C05.fuse_elem_onto",
+    "SymmModel.C05.unfuse_elem",
+    "SymmModel.C05.unfuse_fuse_blocks",
+    "SymmModel.C05.unfuseGroups_two",
+    "SymmModel.C05.fuseF_struct",
+    "SymmModel.C05.signAdj_elem",
+    "SymmModel.C05.fuseF_elem",
+    "SymmModel.C05.fuseSign_formula",
+    "SymmModel.C05.unfuseF_elem",
+    "SymmModel.C05.unfuseSign_def"
 ]
-LEAN_FILES = ["SymmModel.Props.C05", "SymmModel.Proofs.FuseLemmas", "SymmModel.Proofs.FuseBase", "SymmModel.Proofs.FuseAssoc", "SymmModel.Proofs.FuseTable", "SymmModel.Proofs.FusePlan", "SymmModel.Proofs.FuseWf", "SymmModel.Proofs.FuseSpec", "SymmModel.Proofs.FuseAddr", "SymmModel.Proofs.FuseIns", "SymmModel.Proofs.FuseOne", "SymmModel.Proofs.FuseInsert", "SymmModel.Proofs.FuseSem", "SymmModel.Proofs.FuseUnfuse", "SymmModel.Proofs.FuseRound", "SymmModel.Proofs.FuseAll", "SymmModel.Proofs.FuseElem", "SymmModel.Proofs.FuseConcat", "SymmModel.Proofs.FuseConcat2", "SymmModel.Proofs.FuseConcat3"]
-PLANNED = ["fuse_elem (several groups / single-axis groups beside a multi-axis group)", "unfuse_fuse (several groups)", "fuseInsert_eq_fuseConcat (several groups)", "fuseF_elem / unfuseF_fuseF (fermionic signs)", "fuse_cache_irrelevant (via C15)"]
+LEAN_FILES = ["SymmModel.Props.C05", "SymmModel.Proofs.FuseLemmas", "SymmModel.Proofs.FuseBase", "SymmModel.Proofs.FuseAssoc", "SymmModel.Proofs.FuseTable", "SymmModel.Proofs.FusePlan", "SymmModel.Proofs.FuseWf", "SymmModel.Proofs.FuseSpec", "SymmModel.Proofs.FuseAddr", "SymmModel.Proofs.FuseIns", "SymmModel.Proofs.FuseOne", "SymmModel.Proofs.FuseInsert", "SymmModel.Proofs.FuseSem", "SymmModel.Proofs.FuseUnfuse", "SymmModel.Proofs.FuseRound", "SymmModel.Proofs.FuseAll", "SymmModel.Proofs.FuseElem", "SymmModel.Proofs.FuseConcat", "SymmModel.Proofs.FuseConcat2", "SymmModel.Proofs.FuseConcat3", "SymmModel.Props.C05b", "SymmModel.Props.C05c", "SymmModel.Props.C05All", "SymmModel.Proofs.FuseMultiAll", "SymmModel.Proofs.FuseMulti1", "SymmModel.Proofs.FuseMulti2", "SymmModel.Proofs.FuseMulti3", "SymmModel.Proofs.FuseMulti4", "SymmModel.Proofs.FuseMulti5", "SymmModel.Proofs.FuseMulti6", "SymmModel.Proofs.FuseMulti7", "SymmModel.Proofs.FuseMultiU", "SymmModel.Proofs.FuseMultiR1", "SymmModel.Proofs.FuseMultiR2", "SymmModel.Proofs.FuseMultiR3", "SymmModel.Proofs.FuseMultiR4", "SymmModel.Proofs.FuseMultiR5", "SymmModel.Proofs.FuseFermi1", "SymmModel.Proofs.FuseFermi2", "SymmModel.Proofs.FuseFermi3", "SymmModel.Proofs.FuseFermi4", "SymmModel.Proofs.FuseFermi5", "SymmModel.Proofs.FuseFermi6", "SymmModel.Proofs.FuseFermi7"]
+PLANNED = ["fuseInsert_eq_fuseConcat for several groups (one group proved)", "per-group reversal factorisation of the fermionic fuse sign", "unfuseF_fuseF as one composed theorem (both halves proved)", "fuse_cache_irrelevant (via C15)"]
 RULE = ("random abelian and fermionic arrays (all symmetries, sparse, pending signs, odd charge), one or more "
         "disjoint ordered axis groups (single-axis, non-adjacent, permuted, empty, second-level fusing of already "
         "fused axes), strategies insert/concat; compared with the Lean model (value view + sub-index tables), and on "
